@@ -1,2 +1,3 @@
 """importing this package registers every rule"""
 from . import clients  # noqa: F401
+from . import determinism  # noqa: F401
